@@ -27,6 +27,7 @@ type Kind struct {
 var Kinds = []Kind{
 	{"AttestationData", core.DutyAttester, true, func() any { return new(core.AttestationData) }},
 	{"VersionedAggregatedAttestation", core.DutyAggregator, true, func() any { return new(core.VersionedAggregatedAttestation) }},
+	{"AggregatedAttestation(legacy)", core.DutyAggregator, true, func() any { return new(core.AggregatedAttestation) }}, // what nodes of older releases still propose
 	{"VersionedProposal", core.DutyProposer, true, func() any { return new(core.VersionedProposal) }},
 	{"SyncContribution", core.DutySyncContribution, true, func() any { return new(core.SyncContribution) }},
 	{"SyncContributions", core.DutySyncContribution, true, func() any { return new(core.SyncContributions) }},
@@ -44,6 +45,16 @@ var Kinds = []Kind{
 	{"SignedSyncMessage", core.DutySyncMessage, false, func() any { return new(core.SignedSyncMessage) }},
 	{"SyncCommitteeSelection", core.DutyPrepareSyncContribution, false, func() any { return new(core.SyncCommitteeSelection) }},
 	{"SignedSyncContributionAndProof", core.DutySyncContribution, false, func() any { return new(core.SignedSyncContributionAndProof) }},
+}
+
+// KindByName returns the kind with that name (panics if there is none: a harness error).
+func KindByName(name string) Kind {
+	for _, k := range Kinds {
+		if k.Name == name {
+			return k
+		}
+	}
+	panic("HARNESS-ERROR: no value kind " + name)
 }
 
 func UnsignedKinds() []Kind {
